@@ -20,6 +20,8 @@ pub struct Ctx {
     /// replay mode: run only this case index
     pub only_case: Option<u64>,
     pub progress: Option<String>,
+    /// where the watchdog writes the index of a case that exceeded the per-case wall-clock limit
+    pub hang_out: Option<String>,
 }
 
 impl Ctx {
@@ -167,13 +169,44 @@ where
     let chunk: u64 = (total / (ctx.threads as u64 * 64)).clamp(1, 4096);
     let merged = Mutex::new(Acc::default());
     let progress = ctx.progress.clone();
+    // watchdog: (case index, start time in ms since run start) per thread; u64::MAX = idle
+    let t0 = std::time::Instant::now();
+    let slots: Vec<(AtomicU64, AtomicU64)> = (0..ctx.threads).map(|_| (AtomicU64::new(u64::MAX), AtomicU64::new(0))).collect();
+    let done = std::sync::atomic::AtomicBool::new(false);
+    let case_limit_ms: u64 = std::env::var("GMON_CASE_LIMIT_S").ok().and_then(|x| x.parse().ok()).unwrap_or(120) * 1000;
+    let hang_out = ctx.hang_out.clone();
+    let prop = ctx.prop.clone();
     std::thread::scope(|s| {
+        {
+            let slots = &slots;
+            let done = &done;
+            s.spawn(move || {
+                while !done.load(Ordering::Relaxed) {
+                    std::thread::sleep(std::time::Duration::from_millis(500));
+                    let now = t0.elapsed().as_millis() as u64;
+                    for (idx, st) in slots.iter() {
+                        let i = idx.load(Ordering::Relaxed);
+                        if i != u64::MAX && now.saturating_sub(st.load(Ordering::Relaxed)) > case_limit_ms {
+                            // a single case exceeds the wall-clock watchdog: name it and stop; the driver
+                            // re-runs it alone before anything is concluded
+                            eprintln!("WATCHDOG case={} exceeded {} ms", i, case_limit_ms);
+                            if let Some(p) = &hang_out {
+                                let _ = std::fs::write(p, format!("{{\"property\":\"{}\",\"hang_case\":{}}}", prop, i));
+                            }
+                            std::process::exit(3);
+                        }
+                    }
+                }
+            });
+        }
+        let mut handles = vec![];
         for t in 0..ctx.threads {
+            let slot = &slots[t];
             let next = &next;
             let f = &f;
             let merged = &merged;
             let progress = progress.clone();
-            std::thread::Builder::new()
+            let h = std::thread::Builder::new()
                 .stack_size(64 << 20)
                 .spawn_scoped(s, move || {
                     let mut acc = Acc::default();
@@ -188,7 +221,10 @@ where
                             if let Some(p) = &progress {
                                 let _ = std::fs::write(format!("{}.{}", p, t), format!("{}", i));
                             }
+                            slot.1.store(t0.elapsed().as_millis() as u64, Ordering::Relaxed);
+                            slot.0.store(i, Ordering::Relaxed);
                             let r = guarded(|| f(i, &mut acc));
+                            slot.0.store(u64::MAX, Ordering::Relaxed);
                             if let Err((m, l)) = r {
                                 if acc.inconclusive.len() < 20 {
                                     acc.inconclusive.push(format!("harness panic in case {}: {} at {}", i, m, l));
@@ -199,7 +235,12 @@ where
                     merged.lock().unwrap().merge(acc);
                 })
                 .expect("spawn");
+            handles.push(h);
         }
+        for h in handles {
+            let _ = h.join();
+        }
+        done.store(true, Ordering::Relaxed);
     });
     merged.into_inner().unwrap()
 }
